@@ -51,14 +51,14 @@ int __wrap___cxa_guard_acquire(void *g) { if (g_armed) g_locks++; return __real_
 
 // an application object with the library's own parameter ports
 struct App {
-  int vi = 5; float vf = 1; bool vt = false; char vc = 3; char arr[4] = {0, 1, 2, 3}; float farr[4] = {0, 0, 0, 0}; char str[16] = "s"; int opt = 0;
+  int vi = 5; float vf = 1; bool vt = false; char vc = 3; char arr[4] = {0, 1, 2, 3}; float farr[4] = {0, 0, 0, 0}; char str[16] = "s"; int opt = 0; char big[6000] = "b";
   static const rtosc::Ports ports;
 };
 #define rObject App
 const rtosc::Ports App::ports = {
     rParamI(vi, rLinear(0, 100), "int"), rParamF(vf, rLinear(-1, 1), "float"), rToggle(vt, "toggle"), rParam(vc, "char"),
     rArrayI(arr, 4, rLinear(0, 20), "array"), rArrayF(farr, 4, "farray"), rString(str, 16, "string"),
-    rOption(opt, rOptions(red, green, blue), "option"),
+    rOption(opt, rOptions(red, green, blue), "option"), rString(big, 6000, "long string"),
 };
 #undef rObject
 
@@ -96,15 +96,18 @@ const char *vf_property() { return "C03"; }
 void vf_init() {}
 
 static mg::Msg app_msg() {
-  static const char *names[] = {"/vi", "/vf", "/vt", "/vc", "/arr2", "/farr1", "/str", "/opt", "/nonexistent", "/arr9", "/v"};
+  static const char *names[] = {"/vi", "/vf", "/vt", "/vc", "/arr2", "/farr1", "/str", "/opt", "/nonexistent", "/arr9", "/v", "/big", "/opt"};
   mg::Msg m;
-  m.address = names[vf::pickn(11)];
+  m.address = names[vf::pickn(13)];
   static const char *tg[] = {"", "i", "f", "T", "F", "c", "s", "S", "ii"};
   m.tags = tg[vf::pickn(9)];
   mg::fill_vals(m, 12);
   for (auto &v : m.vals) {
-    if (v.t == 'S') v.s = vf::oneof<std::string>({"red", "green", "blue"});   // unknown option symbols are outside the ports' contract
+    // option symbols: mostly known ones, also unknown / empty / numeric / long ones (the port then stores "not found"; what matters here is only that looking it up stays off the heap)
+    if (v.t == 'S') v.s = vf::chance(65) ? vf::oneof<std::string>({"red", "green", "blue"}) : vf::oneof<std::string>({"purple", "", "2", "re", "redd", "a_symbol_of_more_than_sixteen_characters"});
     if (v.t == 's' && v.s.size() > 40) v.s.resize(40);
+    // answers of several kB go through the default reply/broadcast forwarding as well
+    if (v.t == 's' && m.address == "/big" && vf::chance(60)) v.s = std::string((size_t)vf::oneof<int>({200, 900, 1100, 2500, 5000}), 'q');
     if (v.t == 'i' || v.t == 'c') v.u = (uint32_t)vf::pick<int>(-200, 200);
   }
   return m;
